@@ -221,6 +221,22 @@ for kind, loader, pol, a, b in [("ksr", load_ksr, POL, xmlA, xmlB), ("skr", load
         if len(table) != len(obj.bundles) + 1:
             fail("bundle-table", "bundle table has a different number of rows than parsed bundles")
 
+# a file beyond the size cap: either refused, or what is logged is the digest of the whole file (never the digest of a part of it presented as the file's)
+for kind, loader, pol, doc_ in (("skr", load_skr, ResponsePolicy(), skrA), ("ksr", load_ksr, POL, xmlA)):
+    for extra in (0, 1, 4096):
+        data_ = doc_ + b"\n" * (1024 * 1024 + extra - len(doc_))
+        path = os.path.join(tmpd, f"big-{kind}.xml")
+        with open(path, "wb") as f:
+            f.write(data_)
+        r, lines = with_logs(lambda: vlib.run_impl(loader, path, pol))
+        count(f"loader-size-{kind}")
+        logged = [HEX.search(l) for l in lines if "Loaded" in l and HEX.search(l)]
+        if r[0] == "ok" and (len(logged) != 1 or logged[0].group(1) != hashlib.sha256(data_).hexdigest()):
+            fail("loader", f"{kind} file of {len(data_)} octets was loaded and the logged digest is not that of the file (the stand-alone tool prints another value for it)",
+                 {"size": len(data_), "logged": logged[0].group(1) if logged else None, "sha256_of_file": hashlib.sha256(data_).hexdigest()})
+        if extra > 0 and r[0] == "ok":
+            fail("loader", f"{kind} file of {len(data_)} octets (over the 1 MiB cap) was loaded", {"size": len(data_)})
+
 # the table states the parsed instants exactly: fractional seconds and offsets survive, so that two differently parsed KSRs never show the same table
 kreqA = skrgen.k_request(reqA)
 for trial in range(12 * SCALE):
